@@ -19,10 +19,12 @@ VERDICT_PREFIX = {"C04": "C04_", "C12": "C12_"}
 
 
 def tlc_here(sc, module, **kw):
-    """TLC with its JVM temp dir inside the scratch dir (TLC leaves a tlc-* directory in java.io.tmpdir on every run)"""
+    """TLC with its JVM temp dir inside the scratch dir (TLC leaves a tlc-* directory in java.io.tmpdir on every run) and a
+    bounded heap (the largest configuration needs < 2 GB; the default of 25 % of RAM invites the OOM killer when several
+    checks run side by side)"""
     jt = os.path.join(sc, "jtmp")
     os.makedirs(jt, exist_ok=True)
-    return tlc(sc, module, javaopts="-Djava.io.tmpdir=" + jt, **kw)
+    return tlc(sc, module, javaopts="-Xmx8g -Djava.io.tmpdir=" + jt, **kw)
 
 
 # ------------------------------------------------------------------------------------------------ U1 design checks
@@ -123,7 +125,7 @@ def edge_cover(inits, edges, rng, max_len=120):
 def tlc_schedules(tier, sc, v, rng, limit):
     suffix = "gen" if tier == "quick" else "gen_T"
     dot = os.path.join(sc, "limit_gen.dot")
-    res = tlc_here(sc, "MC_Limit", cfg="MC_Limit_%s.cfg" % suffix, timeout=900, extra=["-dump", "dot,actionlabels", dot])
+    res = tlc_here(sc, "MC_Limit", cfg="MC_Limit_%s.cfg" % suffix, timeout=900, extra=["-fp", "0", "-dump", "dot,actionlabels", dot])     # fixed fingerprint polynomial: stable node ids
     tlc_must_pass(res, "MC_Limit_%s (schedule generation)" % suffix)
     v.add_tlc(res, "MC_Limit_%s.cfg: lock-step regime, state graph dumped for schedule generation" % suffix)
     inits, edges = load_graph(dot)
@@ -165,7 +167,7 @@ def seeded_scenarios(tier, rng, grid=True):
                 scs.append(dict(kind="random", q=q, i=4, cap=cap, n=7, units=7 * gap + 6, prod="trickle", gap=gap, cons="ready",
                                 close_delay=-1, src="trickle"))
     # seeded profiles
-    for _ in range(240 if quick else 2400):
+    for _ in range(240 if quick else 3600):
         q = rng.choice([1, 1, 2, 2, 3, 3, 4, 5, 7, 1000, 100000])
         i = rng.choice([1, 2, 2, 3, 4, 5, 8, 10])
         n = rng.randrange(0, min(3 * q + 3, 26) + 1)
@@ -174,7 +176,7 @@ def seeded_scenarios(tier, rng, grid=True):
                         cons=rng.choice(["ready", "ready", "slow", "stall", "free"]),
                         gap=rng.randrange(1, 2 * i + 2), cgap=rng.randrange(1, 2 * i + 2), close_delay=-1, src="profile"))
     # long traces: >= 40 intervals (an interval that is 10 % too short only shows after many intervals)
-    for k in range(12 if quick else 72):
+    for k in range(12 if quick else 96):
         q = rng.choice([1, 2, 3, 4])
         i = [10, 1, 4, 10, 2, 5, 10, 3][k % 8]
         iv = rng.randrange(42, 56)
